@@ -2,7 +2,7 @@
    a history is a configuration and a list of (operation, what the real keeper's store showed after it);
    the model is run along and compared after every operation. *)
 From Coq Require Import ZArith List Bool.
-From FxV Require Import model.M_Attest.
+From FxV Require Import model.M_Attest gen.Gen_AttestFacts.
 Import ListNotations.
 Open Scope Z_scope.
 
@@ -115,7 +115,12 @@ Fixpoint first_bad (c : cfg) (s : st) (i : Z) (l : list (op * obs)) : Z :=
                    if obs_ok s' rs o then first_bad c s' (i + 1) r else i
   end.
 
-Definition hist_first_bad (h : hist) : Z := first_bad (h_cfg h) init 0 (h_ops h).
+(* the configuration the harness probed for this run must be the one the translator `c01 -facts` wrote into
+   gen/Gen_AttestFacts.v (both execute the same probes on the same tree); -2 = they differ *)
+Definition cfg_is_tree_cfg (c : cfg) : bool :=
+  Bool.eqb (c_unbond_del c) gen_unbond_deletes_cursor && Bool.eqb (c_cursor_clamp c) gen_cursor_clamps.
+Definition hist_first_bad (h : hist) : Z :=
+  if cfg_is_tree_cfg (h_cfg h) then first_bad (h_cfg h) init 0 (h_ops h) else -2.
 Definition hist_mismatch (h : hist) : bool := negb (hist_first_bad h =? -1).
 
 (* ---- transaction layer (MsgClaim wrapper): one case = a state reached by a prefix of operations,
